@@ -30,7 +30,7 @@ COPIES = {
     "list": 1, "dict": 1, "set": 1, "tuple": 1, "sorted": 1, "frozenset": 1, "reversed": 1,
     "copy": 1, "subgraph": 1, "DataFrame": 9, "deepcopy": 9, "array": 9, "asarray": 0,
     "astype": 9, "tolist": 9, "zeros_like": 9, "ones_like": 9, "where": 9, "isin": 9,
-    "unique": 9, "concatenate": 9, "stack": 9, "nonzero": 9, "node_link_data": 9, "dumps": 9,
+    "unique": 9, "concatenate": 9, "stack": 9, "nonzero": 9, "node_link_data": 3, "dumps": 9,  # node_link_data: dict -> list -> per-element dict are new, the attribute VALUES are shared
     "str": 9, "int": 9, "float": 9, "len": 9, "bool": 9, "max": 9, "min": 9, "sum": 9,
     "enumerate": 0, "zip": 0, "iter": 0, "next": 0, "filter": 0, "map": 0,
 }
